@@ -122,6 +122,7 @@ class Facts:
         self.traits = {t["path"]: t for t in self.d["traits"]}
         self.aliases = {a["path"]: a for a in self.d["aliases"]}
         self.api = self.d["api"]
+        self.public_paths = self.d.get("public_paths", [])
         # impl lookup: (trait path, self adt path) -> impl
         self.impl_index = {}
         for im in self.impls:
